@@ -83,6 +83,10 @@ def stepBank (st : BankSt) (toks : List String) : BankSt × String :=
     match st.resolve a, st.resolve b, parseCoins c with
     | some a, some b, some c => okErr st (Bank.send st.bank a b c)
     | _, _, _ => (st, "bad-op")
+  | ["sendr", a, b, c] =>
+    match st.resolve a, st.resolve b, parseCoins c with
+    | some a, some b, some c => okErr st (Bank.send st.bank a b c)
+    | _, _, _ => (st, "bad-op")
   | ["burn", a, c] =>
     match st.resolve a, parseCoins c with
     | some a, some c => okErr st (Bank.burn st.bank a c)
